@@ -117,8 +117,10 @@ class HTTPProtocol(BaseGopherProtocol):
             # It's a link to our own server.  Make it as such.  (relative)
             url = urllib.parse.quote(entry.getselector(), errors="surrogateescape")
         else:
-            # Link to a different server.  Make it a gopher URL.
-            url = entry.geturl(self.server.server_name, 70)
+            # Link to a different server.  Make it a gopher URL.  An entry without a
+            # port of its own (Port=+) is on this server's port, as the Gopher
+            # menu line says -- not on 70.
+            url = entry.geturl(self.server.server_name, self.server.server_port)
 
         # OK.  Render.
         return self.getrenderstr(entry, url)
